@@ -1,6 +1,6 @@
 (* Proofs for C20 (Model/IsolationModel.v against Spec/IsolationSpec.v). *)
 From Coq Require Import String ZArith List Bool Lia.
-From HV Require Import Gen.GenCopies Gen.GenFrontierFlow Spec.IsolationSpec Model.IsolationModel.
+From HV Require Import Gen.GenCopies Gen.GenCallbackCopies Gen.GenFrontierFlow Spec.IsolationSpec Model.IsolationModel.
 Import ListNotations.
 Open Scope Z_scope.
 
@@ -290,8 +290,85 @@ Proof.
 Qed.
 
 Theorem frontier_flow_facts :
-  explore_cfg_src = SrcContract /\ frontier_test_inputs = [] /\ cache_key_depth_only = true.
+  explore_cfg_src = SrcContract /\ frontier_test_inputs = [] /\ cache_key_depth_only = true /\
+  setup_state_visited = false /\ test_cfg_base_src = SrcContract.
 Proof. repeat split; reflexivity. Qed.
+
+(* ---- annotations do not stack *)
+Section AnnotatedProofs.
+Variable nb fc : Z -> Z -> Z.
+Variable cstep : Z -> Z -> list Z.
+Variable sd : Z -> Z.
+Variable cc : Z.
+Hypothesis nb_contract : forall e, nb cc e = cc.
+
+Lemma run_tests_a_resolved ts : forall c,
+  run_tests_a nb fc cstep sd cc cc ts c = run_tests_c fc cstep sd cc (map (resolve cc) ts) c.
+Proof.
+  induction ts as [|t ts IH]; intros c; [reflexivity|].
+  cbn [run_tests_a map run_tests_c].
+  destruct (run_test_c fc cstep sd cc (resolve cc t) c) as [p c1].
+  rewrite nb_contract, IH. reflexivity.
+Qed.
+
+Lemma run_contract_a_resolved s0 ts :
+  run_contract_a nb fc cstep sd cc s0 ts = run_contract_c fc cstep sd cc s0 (map (resolve cc) ts).
+Proof. unfold run_contract_a, run_contract_c. rewrite run_tests_a_resolved. reflexivity. Qed.
+End AnnotatedProofs.
+
+Lemma next_base_contract cc e : next_base cc e = cc.
+Proof. reflexivity. Qed.
+
+Definition acomplete (cc : Z) (u : atest) : Prop :=
+  a_budget u = None \/ a_depth u (a_ann u cc) = O.
+
+Theorem order_annotated cstep sd cc s0 pre t :
+  Forall (acomplete cc) pre -> a_budget t = None ->
+  nth (length pre) (run_contract_a next_base frontier_cfg cstep sd cc s0 (pre ++ [t])) []
+  = hd [] (run_contract_a next_base frontier_cfg cstep sd cc s0 [t]).
+Proof.
+  intros Hpre Hb.
+  rewrite !(run_contract_a_resolved next_base frontier_cfg cstep sd cc (next_base_contract cc)).
+  rewrite map_app. cbn [map]. rewrite <- (map_length (resolve cc) pre).
+  apply order_config; [|exact Hb].
+  apply Forall_forall. intros u Hu. apply in_map_iff in Hu. destruct Hu as [x [<- Hx]].
+  rewrite Forall_forall in Hpre. exact (Hpre x Hx).
+Qed.
+
+Theorem alone_annotated cstep sd cc s0 t :
+  a_budget t = None ->
+  hd [] (run_contract_a next_base frontier_cfg cstep sd cc s0 [t])
+  = spec_paths (mkSystem (cstep cc) sd) (a_body t (a_ann t cc)) s0 (a_depth t (a_ann t cc)).
+Proof.
+  intros Hb. rewrite (run_contract_a_resolved next_base frontier_cfg cstep sd cc (next_base_contract cc)).
+  cbn [map]. rewrite alone_config by exact Hb. reflexivity.
+Qed.
+
+(* conversely: if the next test started from the config of the test that has just run, an annotation
+   would stay in force for every later test.  Configs are depths here: t1 is annotated with depth 2,
+   t2 is not annotated (contract depth 1); inc() on a counter; both assert counter < 2. *)
+Definition annw_t1 : atest := mkATest (fun _ => 2) Z.to_nat (fun _ s => [if s <? 2 then 0 else 1]) None.
+Definition annw_t2 : atest := mkATest (fun e => e) Z.to_nat (fun _ s => [if s <? 2 then 0 else 1]) None.
+
+Theorem stacked_annotations_refute_isolation :
+  exists (cstep : Z -> Z -> list Z) (sd : Z -> Z) (cc s0 : Z) (t1 t2 : atest),
+    a_budget t1 = None /\ a_budget t2 = None /\
+    verdict_of (nth 1 (run_contract_a (pick_cfg SrcTest) frontier_cfg cstep sd cc s0 [t1; t2]) []) = 1 /\
+    verdict_of (hd [] (run_contract_a (pick_cfg SrcTest) frontier_cfg cstep sd cc s0 [t2])) = 0.
+Proof.
+  exists (fun _ s => [s + 1]), (fun s => s), 1, 0, annw_t1, annw_t2.
+  repeat split; vm_compute; reflexivity.
+Qed.
+
+(* the continuations of a caller after a sub-call (one per outcome of the callee, all built by the same
+   return callback from the same caller state / backups): every field they re-establish is copied at
+   least as deep as it is mutated in place *)
+Theorem callback_tables_sufficient :
+  fields_ok exec_need call_backup_table = true /\ fields_ok exec_need call_resume_table = true /\
+  fields_ok exec_need call_restore_table = true /\
+  fields_ok exec_need create_backup_table = true /\ fields_ok exec_need create_resume_table = true /\
+  fields_ok exec_need create_restore_table = true.
+Proof. repeat split; vm_compute; reflexivity. Qed.
 
 (* conversely: were the frontier explored under the RUNNING test's config while the cache stays keyed
    by the depth, the result of a completed test would depend on which test filled the cache.
